@@ -91,6 +91,23 @@ def extra_run(man, tier, seed):
             elif arg <= 1e-12 and v != a_:
                 failures.append({'site': 'DiscreteUniform.invcdf_real', 'case': line, 'impl': ai, 'expected': f'invcdf(p -> 0) = a = {a_}',
                                  'observed': 'value', 'detail': 'lower tail'})
+    # KsTwoAsymptotic (cdf / invcdf are stub ops: Newton + bisection solver, not translated): round trips on the implementation
+    if 'KsTwoAsymptotic.invcdf_real' in man['defs'] and 'KsTwoAsymptotic.cdf_real' in man['defs']:
+        import math
+        kx = [0.05, 0.08, 0.12, 0.17, 0.25, 0.5, 0.82, 0.83, 1.0, 1.5, 2.0] + [math.exp(rng.uniform(math.log(0.05), math.log(2.5))) for _ in range(n // 2)]
+        k1 = [f'KsTwoAsymptotic.cdf_real f64 {enc(x)}' for x in kx]
+        c1, _ = run_pair(k1, want_model=False)
+        ok_idx = [i for i, c in enumerate(c1) if c.startswith('x') and 0.0 < tok_to_float(c) < 1.0]
+        k2 = [f'KsTwoAsymptotic.invcdf_real f64 {c1[i]}' for i in ok_idx]
+        c2, _ = run_pair(k2, want_model=False)
+        for i, line, a in zip(ok_idx, k2, c2):
+            if a in ('NOOP',):
+                break
+            back = tok_to_float(a) if a.startswith('x') else float('nan')
+            # where the cdf is flat to binary64 (p within a few ulps of 1) the inverse is not determined: judge through the cdf
+            if not (abs(back - kx[i]) <= 1e-9 * kx[i]) and tok_to_float(c1[i]) < 1.0 - 1e-9:
+                failures.append({'site': 'KsTwoAsymptotic.invcdf_real', 'case': line, 'impl': a, 'expected': f'invcdf(cdf(x)) = x = {kx[i]!r} within 1e-9 relative',
+                                 'observed': 'panic' if a in ('PANIC', 'HANG') else 'value', 'detail': f'x = {kx[i]!r}, cdf = {c1[i]}'})
     obligations = [{'name': 'corr:DiscreteUniform.invcdf/cdf(integer kinds, hand model)', 'kind': 'corr', 'ok': not bad, 'site': 'DiscreteUniform.invcdf_real',
                     'detail': (bad[0]['line'] + ' impl=' + bad[0]['impl'] + ' model=' + bad[0]['model']) if bad else '', 'cases': bad[:3]}]
     return {'obligations': obligations, 'failures': failures,
